@@ -11,18 +11,81 @@ Section T.
 Variable W : jworld.
 
 Definition MapOK (t : ptable) : Prop :=
-  forall req v, lookup req (pt_map t) = Some v -> matches W req (snd v) = true.
+  forall req v, lookup req (pt_map t) = Some v -> matches W req (snd v) = true \/ In (req, v) (jw_seed W).
 Definition ExportsOK (t : ptable) : Prop :=
   forall v e, In (v, e) (pt_exports t) ->
     exists vi target, v_meta (ver_of W v) = VOk vi /\ lookup e (vi_exports vi) = Some target /\ target <> 0.
-Definition PInv (st : jstate) : Prop := MapOK (js_pkgs st) /\ ExportsOK (js_pkgs st).
+(* lockfile-seeded selections: they stay selected, and a requirement is mapped either as the lockfile
+   wrote it or to a version not below any seeded version of its package that satisfies it *)
+Definition SeedOK (t : ptable) : Prop :=
+  (forall r p v, In (r, (p, v)) (jw_seed W) -> In (p, v) (pt_by_name t)) /\
+  (forall req p v, lookup req (pt_map t) = Some (p, v) ->
+     In (req, (p, v)) (jw_seed W) \/
+     forall s, In s (seeded_versions W p) -> matches W req s = true -> (s <= v)%N).
+Definition PInv (st : jstate) : Prop := MapOK (js_pkgs st) /\ ExportsOK (js_pkgs st) /\ SeedOK (js_pkgs st).
 
 Lemma pinv_ext : forall st st',
   pt_map (js_pkgs st') = pt_map (js_pkgs st) -> pt_exports (js_pkgs st') = pt_exports (js_pkgs st) ->
+  pt_by_name (js_pkgs st') = pt_by_name (js_pkgs st) ->
   PInv st -> PInv st'.
-Proof. intros st st' H1 H2 [A B]. unfold PInv, MapOK, ExportsOK in *. rewrite H1, H2. split; assumption. Qed.
+Proof.
+  intros st st' H1 H2 H3 [A [B C]]. unfold PInv, MapOK, ExportsOK, SeedOK in *. rewrite H1, H2, H3.
+  split; [|split]; assumption.
+Qed.
 
-Ltac pext H := (eapply pinv_ext; [| |exact H]; reflexivity).
+Ltac pext H := (eapply pinv_ext; [| | |exact H]; reflexivity).
+
+Lemma best_match_ge : forall req vs best b,
+  best_match W req vs best = Some b ->
+  (forall x, In x vs -> matches W req x = true -> (x <= b)%N) /\ (forall b0, best = Some b0 -> (b0 <= b)%N).
+Proof.
+  intros req vs. induction vs as [|x vs IH]; intros best b H; cbn [best_match] in H.
+  - split; [intros x []|]. intros b0 Hb. rewrite Hb in H. inversion H. apply N.le_refl.
+  - apply IH in H. destruct H as [H1 H2]. split.
+    + intros y [<-|Hin] Hm; [|apply H1; assumption]. rewrite Hm in H2.
+      destruct best as [b0|]; [|apply H2; reflexivity].
+      destruct (N.ltb b0 x) eqn:El; [apply H2; reflexivity|].
+      apply N.ltb_ge in El. etransitivity; [exact El | apply H2; reflexivity].
+    + intros b0 Hb. subst best. destruct (matches W req x); [|apply H2; reflexivity].
+      destruct (N.ltb b0 x) eqn:El; [|apply H2; reflexivity].
+      apply N.ltb_lt in El. apply N.lt_le_incl. eapply N.lt_le_trans; [exact El | apply H2; reflexivity].
+Qed.
+
+Lemma best_match_none : forall req vs best,
+  best_match W req vs best = None -> forall x, In x vs -> matches W req x = false.
+Proof.
+  intros req vs. induction vs as [|x vs IH]; intros best H y Hin; [destruct Hin|]. cbn [best_match] in H.
+  destruct Hin as [<-|Hin]; [|apply (IH _ H y Hin)].
+  destruct (matches W req x) eqn:Em; [|reflexivity]. exfalso.
+  assert (G : forall vs0 b0, best_match W req vs0 (Some b0) <> None).
+  { induction vs0 as [|z vs0 IH0]; intros b0; cbn [best_match]; [discriminate|].
+    destruct (matches W req z); [destruct (N.ltb b0 z)|]; apply IH0. }
+  destruct best as [b0|]; [destruct (N.ltb b0 x)|]; apply (G _ _ H).
+Qed.
+
+Lemma resolve_version_ge : forall req versions existing cached v y,
+  resolve_version W req versions existing cached = Some (v, y) ->
+  forall s, In s existing -> matches W req s = true -> (s <= v)%N.
+Proof.
+  intros req versions existing cached v y H s Hin Hm. unfold resolve_version in H.
+  destruct (best_match W req existing None) as [v0|] eqn:E0.
+  - inversion H; subst. apply (proj1 (best_match_ge _ _ _ _ E0) s Hin Hm).
+  - rewrite (best_match_none _ _ _ E0 s Hin) in Hm. discriminate.
+Qed.
+
+Lemma in_add2 : forall k l x, In x l -> In x (add2 k l).
+Proof. intros k l x H. unfold add2. destruct (mem2 k l); [exact H | apply in_or_app; left; exact H]. Qed.
+
+Lemma seeded_by_name : forall t p s,
+  (forall r p0 v, In (r, (p0, v)) (jw_seed W) -> In (p0, v) (pt_by_name t)) ->
+  In s (seeded_versions W p) -> In s (versions_by_name t p).
+Proof.
+  intros t p s Hs Hin. unfold seeded_versions in Hin. apply in_map_iff in Hin.
+  destruct Hin as [[r [p0 v]] [Hv Hf]]. cbn in Hv. subst v. apply filter_In in Hf. destruct Hf as [Hin Hp].
+  cbn in Hp. apply N.eqb_eq in Hp. subst p0.
+  unfold versions_by_name. apply in_map_iff. exists (p, s). split; [reflexivity|].
+  apply filter_In. split; [apply (Hs r p s Hin) | cbn; apply N.eqb_refl].
+Qed.
 
 Lemma pinv_mark : forall st req r, PInv st -> PInv (mark_jsr_dep st req r).
 Proof. intros st req r H. unfold mark_jsr_dep. destruct r as [[rg [v|]]|]; exact H. Qed.
@@ -144,10 +207,17 @@ Proof.
     destruct (probe_all W st (jr_pkg it) cands cached) as [st1 cached']. exact Hp. }
   destruct pr as [[st1 memo1] cached]. cbn [fst] in Hpr.
   destruct (resolve_version W (jr_req it) versions (versions_by_name (js_pkgs st1) (jr_pkg it)) cached) as [[v yanked]|] eqn:Er.
-  - apply IH. apply pinv_queue_ver. destruct Hpr as [A B]. split.
+  - apply IH. apply pinv_queue_ver. destruct Hpr as [A [B [C1 C2]]]. split; [|split; [|split]].
     + intros req v0 Hl. cbn in Hl. destruct yanked; cbn in Hl; apply lookup_set_assoc_inv in Hl;
-        (destruct Hl as [[-> ->]|Hl]; [cbn; apply (resolve_version_matches W _ _ _ _ _ _ Er) | apply (A req v0 Hl)]).
+        (destruct Hl as [[-> ->]|Hl]; [cbn; left; apply (resolve_version_matches W _ _ _ _ _ _ Er) | apply (A req v0 Hl)]).
     + intros v0 e Hin. apply (B v0 e). destruct yanked; exact Hin.
+    + intros r p0 v0 Hin. apply C1 in Hin. destruct yanked; cbn; apply in_add2; exact Hin.
+    + intros req p0 v0 Hl.
+      assert (Hl' : lookup req (set_assoc (jr_req it) (jr_pkg it, v) (pt_map (js_pkgs st1))) = Some (p0, v0))
+        by (destruct yanked; exact Hl).
+      apply lookup_set_assoc_inv in Hl'. destruct Hl' as [[-> Heq]|Hl']; [|apply (C2 req p0 v0 Hl')].
+      inversion Heq; subst p0 v0. right. intros s Hs Hm.
+      apply (resolve_version_ge _ _ _ _ _ _ Er s (seeded_by_name _ _ _ C1 Hs) Hm).
   - destruct (js_busting st1); [apply IH; pext Hpr | exact Hpr].
 Qed.
 
@@ -170,12 +240,14 @@ Proof.
   destruct target as [|p]; [pext H2|].
   apply load_pinv.
   assert (H3 : forall stx, pt_map (js_pkgs stx) = pt_map (js_pkgs st2) ->
+               pt_by_name (js_pkgs stx) = pt_by_name (js_pkgs st2) ->
                (forall v0 e, In (v0, e) (pt_exports (js_pkgs stx)) -> In (v0, e) (add_pair (vr_nv x) (jr_exp (vr_item x)) (pt_exports (js_pkgs st2)))) ->
                PInv stx).
-  { intros stx Hm He. destruct H2 as [A B]. split.
+  { intros stx Hm Hbn He. destruct H2 as [A [B C]]. split; [|split].
     - unfold MapOK. rewrite Hm. exact A.
     - intros v0 e Hin. apply He in Hin. apply in_add_pair in Hin. destruct Hin as [[-> ->]|Hin]; [|apply (B v0 e Hin)].
-      exists vi, (N.pos p). split; [apply (ver_result_meta W st _ _ cfl); exact Ev | split; [exact El | discriminate]]. }
+      exists vi, (N.pos p). split; [apply (ver_result_meta W st _ _ cfl); exact Ev | split; [exact El | discriminate]].
+    - unfold SeedOK. rewrite Hm, Hbn. exact C. }
   destruct (jr_root (vr_item x)); apply H3; try reflexivity; destruct ct; cbn; auto.
 Qed.
 
@@ -233,19 +305,57 @@ Proof.
   rewrite G. reflexivity.
 Qed.
 
+Lemma seed_table_map : forall seeds t req v,
+  lookup req (pt_map (fold_left (fun t p => add_nv t (fst p) (snd p)) seeds t)) = Some v ->
+  In (req, v) seeds \/ lookup req (pt_map t) = Some v.
+Proof.
+  induction seeds as [|[r nv0] seeds IH]; intros t req v H; cbn [fold_left] in H; [right; exact H|].
+  apply IH in H. destruct H as [H|H]; [left; right; exact H|].
+  cbn [fst snd add_nv] in H. cbn in H. apply lookup_set_assoc_inv in H.
+  destruct H as [[-> ->]|H]; [left; left; reflexivity | right; exact H].
+Qed.
+
+Lemma seed_table_exports : forall seeds t,
+  pt_exports (fold_left (fun t p => add_nv t (fst p) (snd p)) seeds t) = pt_exports t.
+Proof. induction seeds as [|[r nv0] seeds IH]; intros t; cbn [fold_left]; [reflexivity|]. rewrite IH. reflexivity. Qed.
+
+Lemma mem2_in : forall k l, mem2 k l = true -> In k l.
+Proof.
+  intros k l. induction l as [|x l IH]; cbn [mem2]; [discriminate|]. intro H.
+  apply Bool.orb_true_iff in H. destruct H as [H|H]; [left; apply nv_eqb_eq in H; symmetry; exact H | right; apply IH; exact H].
+Qed.
+
+Lemma seed_table_by_name : forall seeds t p v,
+  In (p, v) (pt_by_name t) \/ (exists r, In (r, (p, v)) seeds) ->
+  In (p, v) (pt_by_name (fold_left (fun t p => add_nv t (fst p) (snd p)) seeds t)).
+Proof.
+  induction seeds as [|[r nv0] seeds IH]; intros t p v H; cbn [fold_left].
+  - destruct H as [H|[r [] ]]. exact H.
+  - apply IH. destruct H as [H|[r0 [H|H]]].
+    + left. cbn. apply in_add2. exact H.
+    + left. inversion H; subst. cbn. unfold add2. destruct (mem2 (p, v) (pt_by_name t)) eqn:Em.
+      * apply mem2_in. exact Em.
+      * apply in_or_app. right. left. reflexivity.
+    + right. exists r0. exact H.
+Qed.
+
 Theorem jbuild_table : forall o roots g,
-  jbuild W o roots = Some g -> MapOK (jg_pkgs g) /\ ExportsOK (jg_pkgs g).
+  jbuild W o roots = Some g -> MapOK (jg_pkgs g) /\ ExportsOK (jg_pkgs g) /\ SeedOK (jg_pkgs g).
 Proof.
   intros o roots g. unfold jbuild.
-  assert (P0 : forall st, js_pkgs st = empty_ptable -> PInv st).
-  { intros st Hp. unfold PInv, MapOK, ExportsOK. rewrite Hp. cbn. split; [intros req v Hl; discriminate | intros v e []]. }
+  assert (P1 : forall st, js_pkgs st = seed_table (jw_seed W) -> PInv st).
+  { intros st Hp. unfold PInv, MapOK, ExportsOK, SeedOK. rewrite Hp. unfold seed_table. split; [|split; [|split]].
+    - intros req v Hl. apply seed_table_map in Hl. destruct Hl as [Hl|Hl]; [right; exact Hl | discriminate].
+    - intros v e Hin. rewrite seed_table_exports in Hin. destruct Hin.
+    - intros r p v Hin. apply seed_table_by_name. right. exists r. exact Hin.
+    - intros req p v Hl. apply seed_table_map in Hl. destruct Hl as [Hl|Hl]; [left; exact Hl | discriminate]. }
   pose proof (resolve_pending_pinv o (jfuel W) (load_roots W (init_state W) roots)
-                (load_roots_pinv roots _ (P0 (init_state W) eq_refl))) as H1.
+                (load_roots_pinv roots _ (P1 (init_state W) eq_refl))) as H1.
   destruct (resolve_pending (jfuel W) W o (load_roots W (init_state W) roots)) as [st|st|]; [| |discriminate].
   - intro E. inversion E; subst. cbn [finish jg_pkgs]. rewrite content_loads_pkgs. exact H1.
-  - pose proof (resolve_pending_pinv o (jfuel W) (load_roots W (restart_state st) roots)
-                  (load_roots_pinv roots _ (P0 (restart_state st) eq_refl))) as H2.
-    destruct (resolve_pending (jfuel W) W o (load_roots W (restart_state st) roots)) as [st2|st2|]; try discriminate.
+  - pose proof (resolve_pending_pinv o (jfuel W) (load_roots W (restart_state W st) roots)
+                  (load_roots_pinv roots _ (P1 (restart_state W st) eq_refl))) as H2.
+    destruct (resolve_pending (jfuel W) W o (load_roots W (restart_state W st) roots)) as [st2|st2|]; try discriminate.
     intro E. inversion E; subst. cbn [finish jg_pkgs]. rewrite content_loads_pkgs. exact H2.
 Qed.
 End T.
